@@ -141,8 +141,15 @@ def run(module, tier, seed, nproc=16):
             with concurrent.futures.ProcessPoolExecutor(max_workers=min(nproc, len(shards)), mp_context=ctxmp, initializer=_init_worker,
                                                         initargs=(module.__name__, (prop, tier, seed, deadline))) as pool:
                 futs = {pool.submit(_work, s): s for s in shards}
-                for fut in concurrent.futures.as_completed(futs):
-                    results.append(fut.result())
+                try:
+                    # every shard checks the deadline between evaluations; one that has not returned HANG_GRACE seconds after it is
+                    # stuck inside a single call
+                    for fut in concurrent.futures.as_completed(futs, timeout=max(60.0, deadline - time.time()) + HANG_GRACE):
+                        results.append(fut.result())
+                except concurrent.futures.TimeoutError:
+                    stuck = [s for f, s in futs.items() if not f.done()]
+                    _kill_pool(pool)
+                    return _worker_hung(module, main, stuck, ctxmp, t0)
         except BrokenProcessPool:
             return _worker_died(module, main, shards, ctxmp, t0)
     else:
@@ -234,15 +241,58 @@ def run(module, tier, seed, nproc=16):
     return 1 if violations else 0
 
 
-def _dies(module, shard, ctxmp, args):
-    """runs one shard in a child process of its own; True if the child is killed by a signal / exits abnormally"""
+HANG_GRACE = float(os.environ.get("VERIF_HANG_GRACE", 600.0))      # seconds past the tier deadline after which a shard that has not returned counts as stuck
+HANG_LIMIT = float(os.environ.get("VERIF_HANG_LIMIT", 900.0))      # time limit of a shard re-run alone (its own cooperative deadline is 300 s)
+
+
+def _kill_pool(pool):
+    for p in list((getattr(pool, "_processes", None) or {}).values()):
+        try:
+            p.kill()
+        except Exception:
+            pass
+
+
+def _fate(module, shard, ctxmp, args, timeout=HANG_LIMIT):
+    """runs one shard in a child process of its own: 'ok', 'died' (killed by a signal / abnormal exit) or 'hung' (no result within the limit)"""
     import concurrent.futures
     with concurrent.futures.ProcessPoolExecutor(max_workers=1, mp_context=ctxmp, initializer=_init_worker, initargs=(module.__name__, args)) as one:
         try:
-            one.submit(_work, shard).result(timeout=900)
-            return False
+            one.submit(_work, shard).result(timeout=timeout)
+            return "ok"
+        except concurrent.futures.TimeoutError:
+            _kill_pool(one)
+            return "hung"
         except Exception:
-            return True
+            return "died"
+
+
+def _dies(module, shard, ctxmp, args):
+    return _fate(module, shard, ctxmp, args) != "ok"
+
+
+def _worker_hung(module, main, stuck, ctxmp, t0):
+    """Some shards did not return long after the deadline that every shard polls between evaluations: a call into the code under test
+    does not come back.  Each is re-run alone with a fresh, short cooperative deadline and a longer hard limit; one that hangs again is a
+    violation (every enumerated call is a valid call and must terminate); if none does, the run is reported as nondeterministic."""
+    prop = module.PROPERTY
+    culprit = None
+    for s in stuck[:4]:
+        if _fate(module, s, ctxmp, (prop, main.tier, main.seed, time.time() + 300)) == "hung":
+            culprit = s
+            break
+    if culprit is None:
+        print("HARNESS-NONDETERMINISM property=%s %d shard(s) did not return in time, but none hangs when re-run alone (first: %s)" % (prop, len(stuck), json.dumps(stuck[0])[:300]))
+        return 2
+    os.makedirs(os.path.join(OUTDIR, "replays"), exist_ok=True)
+    path = os.path.join(OUTDIR, "replays", "%s-hang.json" % prop)
+    case = {"sub": "__hang__", "shard": culprit}
+    with open(path, "w") as fh:
+        json.dump({"property": prop, "tier": main.tier, "seed": main.seed, "signature": "hang", "message": "a call made while enumerating this shard does not return", "case": case}, fh, indent=1)
+    write_evidence(prop, main.tier, main.seed, module.LEVEL, {"evaluations": 1, "distinct_nontrivial": 1, "rule": module.RULE, "samples": [case], "exhaustive": False,
+                   "caps_hit": ["aborted: a call into the code under test does not return"], "tree_hash": build.tree_hash()}, module.ASSUMPTIONS, time.time() - t0, 1)
+    print("VIOLATION property=%s replay=%s  # hang: a valid call sequence of shard %s does not terminate (reproduced alone, limit %d s)" % (prop, path, json.dumps(culprit)[:300], int(HANG_LIMIT)))
+    return 1
 
 
 def _worker_died(module, main, shards, ctxmp, t0):
@@ -301,7 +351,10 @@ def _default_builds():
 def replay_file(module, path):
     data = json.load(open(path))
     ctx = Ctx(module.PROPERTY, data.get("tier", "quick"), data.get("seed", 0), time.time() + 3600)
-    if data["case"].get("sub") == "__crash__":
+    if data["case"].get("sub") == "__hang__":
+        fate = _fate(module, data["case"]["shard"], multiprocessing.get_context("fork"), (module.PROPERTY, ctx.tier, ctx.seed, time.time() + 300))
+        msgs = ["a call made while enumerating this shard does not return"] if fate == "hung" else (["enumerating this shard kills the process"] if fate == "died" else [])
+    elif data["case"].get("sub") == "__crash__":
         died = _dies(module, data["case"]["shard"], multiprocessing.get_context("fork"), (module.PROPERTY, ctx.tier, ctx.seed, time.time() + 600))
         msgs = ["enumerating this shard kills the process with a fatal signal"] if died else []
     else:
